@@ -141,6 +141,15 @@ def run(ck, m):
         setdels = [st for t, st in acts if ctx(fn, st) == "set" and isinstance(st, ast.Delete)]
         ck.ob("R2", fn, len(sets) == 1 and not setdels, f"the set branch of the {recv}-form must consist of the single store to `{cell}`",
               stmt=f"set_render_method[{recv}] set: single store")
+        for st in sets:
+            pos = set()
+            for t_, b_ in guards(st):
+                if b_:
+                    for v_ in flatten_boolop(expand(fn, t_), ast.And):
+                        pos.add(norm(v_))
+            extra = pos - {"method", "method is not None"}
+            ck.ob("R2", st, not extra, f"the store to `{cell}` happens only under {sorted(extra)}: a level that asks for the value it currently inherits would get no override of its own and keep following "
+                  "its parent/class when that changes later", stmt=f"set_render_method[{recv}] set: store unconditional")
         other = [norm(t) for t, st in stores_in(ast.Module(body=fn.body, type_ignores=[])) if isinstance(t, ast.Attribute) and norm(t) != cell]
         ck.ob("R2", fn, not other, f"{recv}-form writes other cells {other}", stmt=f"set_render_method[{recv}]: only {cell}")
         first_store = min([st.lineno for t, st in stores_in(ast.Module(body=fn.body, type_ignores=[])) if isinstance(t, ast.Attribute)] + [10 ** 9])
